@@ -64,7 +64,11 @@ class AdversarialLeastSquares:
         for x in xs:
             f = fun(x)
             self.evals.append((x, np.asarray(f).copy()))
-        r = self.K - 1 if self.pick is None else self.pick
+        if self.pick == "symbolic" and self.symbolic:
+            r = self.ctx.choose(self.K, "returned_point")  # scipy returns its best point, not necessarily the last one
+        else:
+            r = self.K - 1 if self.pick is None or self.pick == "symbolic" else self.pick
+        self.returned = r
         x, f = self.evals[r]
         m = len(f)
         if self.symbolic:
